@@ -3,7 +3,6 @@
 package snap
 
 import (
-	"context"
 	"fmt"
 	"math/big"
 	"sort"
@@ -11,8 +10,9 @@ import (
 
 	"google.golang.org/protobuf/proto"
 
+	"github.com/cosmos/cosmos-sdk/orm/encoding/ormkv"
 	"github.com/cosmos/cosmos-sdk/orm/model/ormdb"
-	"github.com/cosmos/cosmos-sdk/orm/model/ormtable"
+	storetypes "github.com/cosmos/cosmos-sdk/store/types"
 	sdk "github.com/cosmos/cosmos-sdk/types"
 
 	dataapi "github.com/regen-network/regen-ledger/api/v2/regen/data/v1"
@@ -29,8 +29,10 @@ import (
 
 // Reader owns independent ORM handles over the chain's store keys.
 type Reader struct {
-	eco  ormdb.ModuleDB
-	data ormdb.ModuleDB
+	eco     ormdb.ModuleDB
+	data    ormdb.ModuleDB
+	ecoKey  storetypes.StoreKey
+	dataKey storetypes.StoreKey
 }
 
 func NewReader(c *chain.Chain) *Reader {
@@ -42,7 +44,7 @@ func NewReader(c *chain.Chain) *Reader {
 	if err != nil {
 		panic(err)
 	}
-	return &Reader{eco: eco, data: dat}
+	return &Reader{eco: eco, data: dat, ecoKey: c.EcoKey, dataKey: c.DataKey}
 }
 
 // Snap is a full copy of module and bank state.
@@ -89,8 +91,8 @@ type Snap struct {
 	Bank   map[string]map[string]*big.Int
 	Supply map[string]*big.Int
 
-	// Rows: table full name -> primary key rendering -> deterministic bytes.
-	Rows map[string]map[string][]byte
+	// Rows: table full name -> primary key rendering -> the row message.
+	Rows map[string]map[string]proto.Message
 
 	idx *index
 }
@@ -110,38 +112,120 @@ type index struct {
 	ctByAbbrev   map[string]*baseapi.CreditType
 }
 
-func scan[T proto.Message](ctx context.Context, db ormdb.ModuleDB, s *Snap, mk func() T) []T {
-	proto0 := mk()
-	tbl := db.GetTable(proto0)
-	if tbl == nil {
-		panic(fmt.Sprintf("no table for %T", proto0))
-	}
-	it, err := tbl.List(ctx, nil)
-	if err != nil {
-		panic(err)
-	}
+// scanStore walks one module store ONCE at the raw key/value level and decodes every
+// entry with the ORM schema (primary-key entries only; index and sequence entries are
+// skipped). This does not go through any keeper or table API of the code under test.
+func scanStore(sctx sdk.Context, key storetypes.StoreKey, db ormdb.ModuleDB, s *Snap) {
+	it := sctx.KVStore(key).Iterator(nil, nil)
 	defer it.Close()
-	name := string(proto0.ProtoReflect().Descriptor().FullName())
-	rows := map[string][]byte{}
-	var out []T
-	for it.Next() {
-		m := mk()
-		if err := it.UnmarshalMessage(m); err != nil {
-			panic(err)
+	for ; it.Valid(); it.Next() {
+		k := it.Key()
+		if len(k) == 3 { // singleton tables: module prefix, file id, table id and nothing else
+			if mk := singletons[[3]byte{k[0], k[1], k[2]}]; mk != nil {
+				m := mk()
+				if err := proto.Unmarshal(it.Value(), m); err != nil {
+					panic(fmt.Sprintf("harness: undecodable singleton %x: %v", k, err))
+				}
+				name := string(m.ProtoReflect().Descriptor().FullName())
+				s.Rows[name] = map[string]proto.Message{"[]": m}
+				s.add(m)
+				continue
+			}
 		}
-		_, pk, err := it.Keys()
+		e, err := db.DecodeEntry(k, it.Value())
 		if err != nil {
-			panic(err)
+			panic(fmt.Sprintf("harness: undecodable ORM entry %x: %v", k, err))
 		}
-		bz, err := proto.MarshalOptions{Deterministic: true}.Marshal(m)
-		if err != nil {
-			panic(err)
+		pk, ok := e.(*ormkv.PrimaryKeyEntry)
+		if !ok {
+			continue
 		}
-		rows[pkString(pk)] = bz
-		out = append(out, m)
+		name := string(pk.TableName)
+		if s.Rows[name] == nil {
+			s.Rows[name] = map[string]proto.Message{}
+		}
+		s.Rows[name][pkString(pk.Key)] = pk.Value
+		s.add(pk.Value)
 	}
-	s.Rows[name] = rows
-	return out
+}
+
+// singletons maps (module prefix, file id, table id) to the singleton message types of
+// the ecocredit schema (ids from the (cosmos.orm.v1.singleton) options in the state protos).
+var singletons = map[[3]byte]func() proto.Message{
+	{ecocredit.ORMPrefix, 2, 13}: func() proto.Message { return &baseapi.ClassCreatorAllowlist{} },
+	{ecocredit.ORMPrefix, 2, 15}: func() proto.Message { return &baseapi.ClassFee{} },
+	{ecocredit.ORMPrefix, 2, 18}: func() proto.Message { return &baseapi.ProjectFee{} },
+	{ecocredit.ORMPrefix, 1, 4}:  func() proto.Message { return &basketapi.BasketFee{} },
+	{ecocredit.ORMPrefix, 3, 5}:  func() proto.Message { return &marketapi.FeeParams{} },
+}
+
+func (s *Snap) add(m proto.Message) {
+	switch x := m.(type) {
+	case *baseapi.CreditType:
+		s.CreditTypes = append(s.CreditTypes, x)
+	case *baseapi.Class:
+		s.Classes = append(s.Classes, x)
+	case *baseapi.ClassIssuer:
+		s.ClassIssuers = append(s.ClassIssuers, x)
+	case *baseapi.Project:
+		s.Projects = append(s.Projects, x)
+	case *baseapi.Batch:
+		s.Batches = append(s.Batches, x)
+	case *baseapi.ClassSequence:
+		s.ClassSeqs = append(s.ClassSeqs, x)
+	case *baseapi.ProjectSequence:
+		s.ProjectSeqs = append(s.ProjectSeqs, x)
+	case *baseapi.BatchSequence:
+		s.BatchSeqs = append(s.BatchSeqs, x)
+	case *baseapi.BatchBalance:
+		s.Balances = append(s.Balances, x)
+	case *baseapi.BatchSupply:
+		s.Supplies = append(s.Supplies, x)
+	case *baseapi.OriginTxIndex:
+		s.OriginTxs = append(s.OriginTxs, x)
+	case *baseapi.BatchContract:
+		s.Contracts = append(s.Contracts, x)
+	case *baseapi.ClassCreatorAllowlist:
+		s.Allowlist = append(s.Allowlist, x)
+	case *baseapi.AllowedClassCreator:
+		s.AllowedCreators = append(s.AllowedCreators, x)
+	case *baseapi.ClassFee:
+		s.ClassFee = append(s.ClassFee, x)
+	case *baseapi.AllowedBridgeChain:
+		s.BridgeChains = append(s.BridgeChains, x)
+	case *baseapi.ProjectEnrollment:
+		s.Enrollments = append(s.Enrollments, x)
+	case *baseapi.ProjectFee:
+		s.ProjectFee = append(s.ProjectFee, x)
+	case *basketapi.Basket:
+		s.Baskets = append(s.Baskets, x)
+	case *basketapi.BasketClass:
+		s.BasketClasses = append(s.BasketClasses, x)
+	case *basketapi.BasketBalance:
+		s.BasketBalances = append(s.BasketBalances, x)
+	case *basketapi.BasketFee:
+		s.BasketFee = append(s.BasketFee, x)
+	case *marketapi.SellOrder:
+		s.SellOrders = append(s.SellOrders, x)
+	case *marketapi.AllowedDenom:
+		s.AllowedDenoms = append(s.AllowedDenoms, x)
+	case *marketapi.Market:
+		s.Markets = append(s.Markets, x)
+	case *marketapi.FeeParams:
+		s.FeeParams = append(s.FeeParams, x)
+	case *dataapi.DataID:
+		s.DataIDs = append(s.DataIDs, x)
+	case *dataapi.DataAnchor:
+		s.DataAnchors = append(s.DataAnchors, x)
+	case *dataapi.DataAttestor:
+		s.DataAttestors = append(s.DataAttestors, x)
+	case *dataapi.Resolver:
+		s.Resolvers = append(s.Resolvers, x)
+	case *dataapi.DataResolver:
+		s.DataResolvers = append(s.DataResolvers, x)
+	default:
+		panic(fmt.Sprintf("harness: unknown table message %T", m))
+	}
 }
 
 func pkString(pk []protoreflectValue) string {
@@ -152,42 +236,10 @@ func pkString(pk []protoreflectValue) string {
 func (r *Reader) Take(c *chain.Chain) *Snap {
 	sctx := c.ReadCtx()
 	ctx := sdk.WrapSDKContext(sctx)
-	s := &Snap{Height: c.Height, Time: c.Time, Rows: map[string]map[string][]byte{}}
-
-	s.CreditTypes = scan(ctx, r.eco, s, func() *baseapi.CreditType { return &baseapi.CreditType{} })
-	s.Classes = scan(ctx, r.eco, s, func() *baseapi.Class { return &baseapi.Class{} })
-	s.ClassIssuers = scan(ctx, r.eco, s, func() *baseapi.ClassIssuer { return &baseapi.ClassIssuer{} })
-	s.Projects = scan(ctx, r.eco, s, func() *baseapi.Project { return &baseapi.Project{} })
-	s.Batches = scan(ctx, r.eco, s, func() *baseapi.Batch { return &baseapi.Batch{} })
-	s.ClassSeqs = scan(ctx, r.eco, s, func() *baseapi.ClassSequence { return &baseapi.ClassSequence{} })
-	s.ProjectSeqs = scan(ctx, r.eco, s, func() *baseapi.ProjectSequence { return &baseapi.ProjectSequence{} })
-	s.BatchSeqs = scan(ctx, r.eco, s, func() *baseapi.BatchSequence { return &baseapi.BatchSequence{} })
-	s.Balances = scan(ctx, r.eco, s, func() *baseapi.BatchBalance { return &baseapi.BatchBalance{} })
-	s.Supplies = scan(ctx, r.eco, s, func() *baseapi.BatchSupply { return &baseapi.BatchSupply{} })
-	s.OriginTxs = scan(ctx, r.eco, s, func() *baseapi.OriginTxIndex { return &baseapi.OriginTxIndex{} })
-	s.Contracts = scan(ctx, r.eco, s, func() *baseapi.BatchContract { return &baseapi.BatchContract{} })
-	s.Allowlist = scan(ctx, r.eco, s, func() *baseapi.ClassCreatorAllowlist { return &baseapi.ClassCreatorAllowlist{} })
-	s.AllowedCreators = scan(ctx, r.eco, s, func() *baseapi.AllowedClassCreator { return &baseapi.AllowedClassCreator{} })
-	s.ClassFee = scan(ctx, r.eco, s, func() *baseapi.ClassFee { return &baseapi.ClassFee{} })
-	s.BridgeChains = scan(ctx, r.eco, s, func() *baseapi.AllowedBridgeChain { return &baseapi.AllowedBridgeChain{} })
-	s.Enrollments = scan(ctx, r.eco, s, func() *baseapi.ProjectEnrollment { return &baseapi.ProjectEnrollment{} })
-	s.ProjectFee = scan(ctx, r.eco, s, func() *baseapi.ProjectFee { return &baseapi.ProjectFee{} })
-
-	s.Baskets = scan(ctx, r.eco, s, func() *basketapi.Basket { return &basketapi.Basket{} })
-	s.BasketClasses = scan(ctx, r.eco, s, func() *basketapi.BasketClass { return &basketapi.BasketClass{} })
-	s.BasketBalances = scan(ctx, r.eco, s, func() *basketapi.BasketBalance { return &basketapi.BasketBalance{} })
-	s.BasketFee = scan(ctx, r.eco, s, func() *basketapi.BasketFee { return &basketapi.BasketFee{} })
-
-	s.SellOrders = scan(ctx, r.eco, s, func() *marketapi.SellOrder { return &marketapi.SellOrder{} })
-	s.AllowedDenoms = scan(ctx, r.eco, s, func() *marketapi.AllowedDenom { return &marketapi.AllowedDenom{} })
-	s.Markets = scan(ctx, r.eco, s, func() *marketapi.Market { return &marketapi.Market{} })
-	s.FeeParams = scan(ctx, r.eco, s, func() *marketapi.FeeParams { return &marketapi.FeeParams{} })
-
-	s.DataIDs = scan(ctx, r.data, s, func() *dataapi.DataID { return &dataapi.DataID{} })
-	s.DataAnchors = scan(ctx, r.data, s, func() *dataapi.DataAnchor { return &dataapi.DataAnchor{} })
-	s.DataAttestors = scan(ctx, r.data, s, func() *dataapi.DataAttestor { return &dataapi.DataAttestor{} })
-	s.Resolvers = scan(ctx, r.data, s, func() *dataapi.Resolver { return &dataapi.Resolver{} })
-	s.DataResolvers = scan(ctx, r.data, s, func() *dataapi.DataResolver { return &dataapi.DataResolver{} })
+	s := &Snap{Height: c.Height, Time: c.Time, Rows: map[string]map[string]proto.Message{}}
+	_ = ctx
+	scanStore(sctx, r.ecoKey, r.eco, s)
+	scanStore(sctx, r.dataKey, r.data, s)
 
 	s.Bank = map[string]map[string]*big.Int{}
 	c.BK.IterateAllBalances(sctx, func(addr sdk.AccAddress, coin sdk.Coin) bool {
@@ -397,7 +449,7 @@ func Compare(pre, post *Snap) Diff {
 				d.Rows = append(d.Rows, RowChange{t, k, "delete"})
 			case !aok && bok:
 				d.Rows = append(d.Rows, RowChange{t, k, "insert"})
-			case string(av) != string(bv):
+			case !proto.Equal(av, bv):
 				d.Rows = append(d.Rows, RowChange{t, k, "update"})
 			}
 		}
@@ -454,5 +506,3 @@ func Compare(pre, post *Snap) Diff {
 	}
 	return d
 }
-
-var _ ormtable.Table // keep import for documentation of the scanned interface
